@@ -2,6 +2,7 @@
 import hashlib, json, multiprocessing, os, random, sys, time, traceback
 
 sys.set_int_max_str_digits(0)
+sys.setrecursionlimit(20000)       # long left-deep chains are walked recursively by the generators and oracles
 
 VERIF = os.path.dirname(os.path.dirname(os.path.dirname(os.path.abspath(__file__))))
 OUT = os.environ.get("VERIF_OUT") or VERIF     # evidence/replays/work; only tools/seed_par.sh redirects it (scratch runs)
